@@ -71,7 +71,7 @@ def run_unit(job):
             res["nontrivial"] += 1
         if viol is not None:
             if len(res["violations"]) < 50:
-                res["violations"].append(dict(what=viol.what, asg=ctx.export(viol.assignment) if viol.assignment else None,
+                res["violations"].append(dict(what=viol.what, asg=ctx.export(viol.assignment) if viol.assignment is not None else None,
                                               detail=core.unwrap(viol.detail) if viol.detail is not None else None))
             else:
                 res["violations_dropped"] = res.get("violations_dropped", 0) + 1
